@@ -160,16 +160,14 @@ Proof.
       * intros _. constructor; cbn [sp_heap sp_arrs sp_st with_arrs with_varrs v_heap v_arrs v_st]; auto.
         apply (heap_rel_mono _ _ _ B); [lia|]. apply heap_rel_ext_arr. exact Hh.
   - (* OArrayGet *)
-    apply andb_true_iff in Hx. destruct Hx as [He Hp]. apply negb_true_iff in Hp.
-    destruct (vm_array_get_sim t s (v_arrs v) B a idx esz Ha Hwf He Hp) as (r & Es & Hf & Hext).
+    destruct (vm_array_get_sim t s (v_arrs v) B a idx esz Ha Hwf Hx) as (r & Es & Hf & Hext).
     unfold step_sim_at; cbn zeta. cbn [vm_step]. rewrite Es. cbn [fst snd].
     rewrite tabs_after_nonalloc by reflexivity.
     split; [apply ext_refl|]. split; [exact Hext|]. split; [exact Hf|].
     intros _. constructor; auto; [apply (heap_rel_mono _ _ _ B); [lia|exact Hh]|apply (varr_rel_mono _ _ _ B); [lia|exact Ha]].
   - (* OArraySet *)
     apply andb_true_iff in Hwf. destruct Hwf as [Hwf Hsrc].
-    apply andb_true_iff in Hx. destruct Hx as [He Hp]. apply negb_true_iff in Hp.
-    destruct (vm_array_set_sim t s (v_arrs v) B a idx src esz Ha Hwf He Hp) as (sa' & r & Es & Hf & Hr & Hnew);
+    destruct (vm_array_set_sim t s (v_arrs v) B a idx src esz Ha Hwf Hx) as (sa' & r & Es & Hf & Hr & Hnew);
       [rewrite Hlh, Hla; exact Hsrc|].
     unfold step_sim_at; cbn zeta. cbn [vm_step]. rewrite Es.
     destruct (vm_array_set (v_arrs v) (resolve t a) idx (map (resolve t) src)) as [a' i] eqn:E. cbn [fst snd] in *.
